@@ -74,6 +74,10 @@ type chunkPayloadData struct {
 	_abandoned   bool
 	_allInflight bool // valid only with the first fragment
 
+	// stream is the Stream that packetized this chunk (outbound chunks only);
+	// acknowledged bytes are released to it.
+	stream *Stream
+
 	// Retransmission flag set when T1-RTX timeout occurred and this
 	// chunk is still in the inflight queue
 	retransmit bool
